@@ -55,9 +55,17 @@ Judge(ev) ==
   IN SelectSeq(Fails(StateClauses(B, ev.post)), LAMBDA c : c \notin pf)
         \o Fails(<< <<"P:C01:rejected-unchanged", (ev.exc = "order" /\ ok) => Abs(root) = st>> >> \o sc)
 
+\* after the last call: the per-rank footprint under a specification that charges one bit per fiber (fhbits = 1, everything else 0) is the number of
+\* fibers the live tree holds at that depth - a quantity derived from the rank lists describes the live tree and nothing else
+FinalClauses(ev) ==
+  LET root == ev.post.root
+  IN IF B.emb = "tensor" /\ Good(root, B.depth) /\ Len(B.rankfp) = B.depth
+     THEN Fails(<< <<"P:C02:rank-footprint", \A r \in 1..B.depth : B.rankfp[r] = CountFibersAt(Abs(root), r - 1)>> >>)
+     ELSE <<>>
+
 Next == /\ l < Len(B.steps) /\ ~dead
         /\ LET ev == B.steps[l + 1]
-               f  == Judge(ev)
+               f  == Judge(ev) \o (IF l + 1 = Len(B.steps) THEN FinalClauses(ev) ELSE <<>>)
            IN /\ fails' = fails \o [k \in 1..Len(f) |-> <<l + 1, f[k]>>]
               /\ pf' = SeqToSet(Fails(StateClauses(B, ev.post)))
               /\ dead' = ~Good(ev.post.root, B.depth)
